@@ -20,6 +20,10 @@ func NewHTTPIndexHandler(s IndexStore, writable bool, auth string) http.Handler 
 }
 
 func (h HTTPIndexHandler) ServeHTTP(w http.ResponseWriter, r *http.Request) {
+	if h.authorization != "" && r.Header.Get("Authorization") != h.authorization {
+		http.Error(w, "Unauthorized", http.StatusUnauthorized)
+		return
+	}
 	indexName := path.Base(r.URL.Path)
 
 	switch r.Method {
@@ -56,12 +60,13 @@ func (h HTTPIndexHandler) get(indexName string, w http.ResponseWriter) {
 }
 
 func (h HTTPIndexHandler) head(indexName string, w http.ResponseWriter) {
-	_, err := h.s.GetIndexReader(indexName)
+	r, err := h.s.GetIndexReader(indexName)
 	if err != nil {
-		w.WriteHeader(http.StatusOK)
+		w.WriteHeader(http.StatusNotFound)
 		return
 	}
-	w.WriteHeader(http.StatusNotFound)
+	r.Close()
+	w.WriteHeader(http.StatusOK)
 }
 
 func (h HTTPIndexHandler) put(indexName string, w http.ResponseWriter, r *http.Request) {
